@@ -2,7 +2,7 @@
 (* Family "echo": LoadPlan p ; FreshObj ; CopyFrom ; CopyTo ; FreshObj ; CopyFrom for every plan inside the quantifier of C08. *)
 EXTENDS Shapes, TLC, Json
 CONSTANTS MCDeep, MCLong
-VARIABLES sh, M, obj, tf, dg, pn, pc, hist, viol, aux
+VARIABLES sh, M, Mi, obj, tf, dg, pn, pc, hist, viol, aux
 MCShapes == AllSessionShapes
 MCScript == IF MCLong THEN <<"LoadPlan", "FreshObj", "CopyFrom", "CopyTo", "FreshObj", "CopyFrom">> ELSE <<"LoadPlan", "FreshObj", "CopyFrom", "CopyTo", "FreshObj", "CopyFrom">>
 MCProps == {"C08"}
